@@ -85,3 +85,10 @@ Definition validpath_check (c : str * bool) : bool := Bool.eqb (valid_path (fst 
 (* C16: results only (the tree is not part of the comparison) *)
 Definition C16_check (c : kv_case) : bool :=
   list_eqb (fun a b => obs_eqb (proj_success (fst a)) (proj_success (fst b))) (run kv_init (fst c)) (snd c).
+
+(* C14: the same history with the store call number [fault] failing *)
+Definition with_fault (st : kv) (f : option nat) : kv :=
+  mkKV (st_store st) (st_heap st) (st_handles st) (st_calls st) f.
+Definition C14_case := (option nat * kv_case)%type.
+Definition C14_check (c : C14_case) : bool :=
+  steps_eqb proj_success (run (with_fault kv_init (fst c)) (fst (snd c))) (snd (snd c)).
